@@ -1,7 +1,7 @@
 (* C14: accessors of ntp.Packet's LVM byte and the CSPTP TLV length functions as translated from the
    current source against ST.Model.CodecNtp / ST.Model.CodecCsptp. *)
 From Coq Require Import ZArith Bool List Lia.
-From ST Require Import Base.Ints Base.Bytes Model.CodecNtp Model.CodecCsptp GenLib.GoSem GenLib.GoSemBridge.
+From ST Require Import Base.Ints Base.Bytes Model.CodecNtp Model.CodecCsptp Model.CodecNts GenLib.GoSem GenLib.GoSemBridge.
 From STGen Require Import Gen.
 Open Scope Z_scope.
 
@@ -98,3 +98,76 @@ Proof.
   destruct (Z.land (Gen.csptp_ResponseTLV_FlagField tlv) 1 =? 1); reflexivity.
 Qed.
 Print Assumptions gen_csptp_EncodedResponseTLVLength_eq.
+
+(* ---- nts.maxCookies against the nat model CodecNts.max_cookies ----
+   The translated function computes on int (wrap, truncating division, division-by-zero panic); the
+   model on nat (truncated subtraction, floor division).  First the Z form without wrap ... *)
+Definition zmax_cookies (a c : Z) : Z :=
+  Z.quot (1024 - 48 - (4 + (a + 3) / 4 * 4) - (4 + 4 + 16 + 16)) (4 + (c + 3) / 4 * 4).
+
+Lemma nts_maxCookies_z : forall a c,
+  0 <= a <= 4611686018427387904 -> 0 <= c <= 4611686018427387904 ->
+  Gen.nts_maxCookies a c = Some (zmax_cookies a c).
+Proof.
+  intros a c Ha Hc. unfold Gen.nts_maxCookies, zmax_cookies. cbv zeta.
+  rewrite (wrap_i64_id (a + 3)), (wrap_i64_id (c + 3)) by (unfold GoSem.in_i64; lia).
+  rewrite !ldiff_3.
+  assert (Hpa : 0 <= (a + 3) / 4 * 4 <= a + 3) by (Z.div_mod_to_equations; lia).
+  assert (Hpc : 0 <= (c + 3) / 4 * 4 <= c + 3) by (Z.div_mod_to_equations; lia).
+  set (pa := (a + 3) / 4 * 4) in *. set (pc := (c + 3) / 4 * 4) in *.
+  rewrite (wrap_i64_id (4 + pa)), (wrap_i64_id (4 + pc)) by (unfold GoSem.in_i64; lia).
+  rewrite (wrap_i64_id (976 - (4 + pa))) by (unfold GoSem.in_i64; lia).
+  rewrite (wrap_i64_id (976 - (4 + pa) - 40)) by (unfold GoSem.in_i64; lia).
+  destruct (4 + pc =? 0) eqn:E; [lia|].
+  rewrite quot_i64_pos_const by (unfold GoSem.in_i64; lia).
+  repeat f_equal; try lia.
+Qed.
+
+Lemma pad4len_of_nat n : Z.of_nat (CodecNts.pad4len n) = (Z.of_nat n + 3) / 4 * 4.
+Proof. unfold CodecNts.pad4len. rewrite Nat2Z.inj_mul, Nat2Z.inj_div, Nat2Z.inj_add. reflexivity. Qed.
+
+(* ... then: for every identifier that leaves room at all (padded length <= 932, i.e. the numerator
+   is not negative) the code's count IS the model's count, for all cookie lengths *)
+Lemma gen_nts_maxCookies_eq : forall a c : nat,
+  (a <= 932)%nat -> Z.of_nat c <= 4611686018427387904 ->
+  Gen.nts_maxCookies (Z.of_nat a) (Z.of_nat c) = Some (Z.of_nat (CodecNts.max_cookies a c)).
+Proof.
+  intros a c Ha Hc. rewrite nts_maxCookies_z by lia. f_equal.
+  unfold zmax_cookies, CodecNts.max_cookies, CodecNts.max_packet_len, CodecNts.ntp_hdr_len.
+  pose proof (pad4len_of_nat a) as Hpa. pose proof (pad4len_of_nat c) as Hpc.
+  assert (Hle : (4 + CodecNts.pad4len a + 40 <= 1024 - 48)%nat).
+  { apply Nat2Z.inj_le. rewrite !Nat2Z.inj_add, Hpa. simpl Z.of_nat. Z.div_mod_to_equations. lia. }
+  rewrite Nat2Z.inj_div. rewrite <- Hpa, <- Hpc.
+  rewrite Z.quot_div_nonneg by lia. f_equal; lia.
+Qed.
+Print Assumptions gen_nts_maxCookies_eq.
+
+(* beyond that the code's count is zero or negative and the model's is zero; both callers only ask
+   whether the count is at least 1 (NewResponsePacket) or use count - 1 as an upper bound of a
+   loop (NewRequestPacket), so the two agree in effect *)
+Lemma gen_nts_maxCookies_nofit : forall a c : nat,
+  (932 < a)%nat -> Z.of_nat a <= 4611686018427387904 -> Z.of_nat c <= 4611686018427387904 ->
+  exists z, Gen.nts_maxCookies (Z.of_nat a) (Z.of_nat c) = Some z /\ z <= 0 /\ CodecNts.max_cookies a c = 0%nat.
+Proof.
+  intros a c Ha Ha2 Hc. exists (zmax_cookies (Z.of_nat a) (Z.of_nat c)).
+  split; [apply nts_maxCookies_z; lia|].
+  pose proof (pad4len_of_nat a) as Hpa.
+  split.
+  - unfold zmax_cookies.
+    assert (Hn : 1024 - 48 - (4 + (Z.of_nat a + 3) / 4 * 4) - (4 + 4 + 16 + 16) <= 0) by (Z.div_mod_to_equations; lia).
+    assert (Hd : 0 < 4 + (Z.of_nat c + 3) / 4 * 4) by (Z.div_mod_to_equations; lia).
+    set (n := 1024 - 48 - (4 + (Z.of_nat a + 3) / 4 * 4) - (4 + 4 + 16 + 16)) in *.
+    set (dd := 4 + (Z.of_nat c + 3) / 4 * 4) in *.
+    clearbody n dd. Z.quot_rem_to_equations. nia.
+  - unfold CodecNts.max_cookies, CodecNts.max_packet_len, CodecNts.ntp_hdr_len.
+    assert (Hz : (1024 - 48 - (4 + CodecNts.pad4len a) - 40 = 0)%nat).
+    { assert (Z.of_nat (CodecNts.pad4len a) >= 933) by (rewrite Hpa; Z.div_mod_to_equations; lia). lia. }
+    rewrite Hz. apply Nat.div_0_l. lia.
+Qed.
+Print Assumptions gen_nts_maxCookies_nofit.
+
+Example witness_nts_maxCookies_boundary :
+  Gen.nts_maxCookies 32 448 = Some 1 /\ CodecNts.max_cookies 32 448 = 1%nat /\
+  Gen.nts_maxCookies 32 124 = Some 7 /\ CodecNts.max_cookies 32 124 = 7%nat /\
+  Gen.nts_maxCookies 1000 100 = Some 0 /\ Gen.nts_maxCookies 2000 0 = Some (-267).
+Proof. vm_compute. repeat split; reflexivity. Qed.
